@@ -111,7 +111,7 @@ fn plan_str(p: &Plan) -> String {
 }
 fn sched_str(s: &Sched) -> String {
     format!(
-        "prio={};batch={};spurious={};caller={};grace={};drop={};mt={};hap={}",
+        "prio={};batch={};spurious={};caller={};grace={};drop={};mt={};hap={};ctx={}",
         s.prio.iter().map(|x| x.to_string()).collect::<Vec<_>>().join("."),
         s.batch,
         s.spurious as u8,
@@ -119,7 +119,8 @@ fn sched_str(s: &Sched) -> String {
         s.grace_us,
         s.drop_unpolled as u8,
         s.mt as u8,
-        s.hold_after_panic as u8
+        s.hold_after_panic as u8,
+        s.create_ctx
     )
 }
 fn parse_plan(s: &str) -> Plan {
@@ -142,6 +143,7 @@ fn parse_sched(s: &str) -> Sched {
             "drop" => sc.drop_unpolled = v == "1",
             "mt" => sc.mt = v == "1",
             "hap" => sc.hold_after_panic = v == "1",
+            "ctx" => sc.create_ctx = v.parse().unwrap_or(0),
             _ => {}
         }
     }
@@ -705,20 +707,36 @@ impl<'a> Engine<'a> {
                     if !kind.is_threads() {
                         continue;
                     }
-                    let exp = model::run(c.prog, kind, c.hk, &vec![]);
-                    let callers = [Some("main".to_string()), Some(format!("w_{}", c.prog.id % 10)), None];
-                    for (ci, caller) in callers.iter().enumerate() {
-                        let mode = if ci == 0 { GateMode::First } else { GateMode::Last };
-                        let gates = choose_gates(c, &exp, mode, &mut rng);
-                        let (ps, exhaustive) = prios(&gates, if thorough { 48 } else { 6 }, &mut rng);
-                        if exhaustive {
-                            self.stats.bump("cases_with_exhaustive_release_orders", 1);
+                    // fault-free plan plus (try kinds) single-failure placements: on a failing step the caller still has
+                    // to wait for every thread of that step, also for those with a higher index than the failing branch
+                    let mut plans: Vec<Plan> = vec![vec![]];
+                    if kind.is_try() && !fids.is_empty() {
+                        for _ in 0..(if thorough { 6 } else { 2 }) {
+                            plans.push(vec![(fids[rng.below(fids.len())], FAIL)]);
                         }
-                        let gp = with_gates(&vec![], &gates);
-                        for pr in ps {
-                            let s = Sched { prio: pr, batch: 1, grace_us: 200, caller: caller.clone(), ..default.clone() };
-                            if let Some((rec, _, _)) = self.exec(cx, &gp, &s, n >= 2) {
-                                self.stats.bump(&format!("arrival_set_size:{}", rec.max_held), 1);
+                    }
+                    for (pi, p) in plans.iter().enumerate() {
+                        let exp = model::run(c.prog, kind, c.hk, p);
+                        let callers = [Some("main".to_string()), Some(format!("w_{}", c.prog.id % 10)), None];
+                        for (ci, caller) in callers.iter().enumerate() {
+                            if pi > 0 && ci != pi % 3 {
+                                continue;
+                            }
+                            let mode = if pi > 0 { GateMode::All } else if ci == 0 { GateMode::First } else { GateMode::Last };
+                            let gates = choose_gates(c, &exp, mode, &mut rng);
+                            let (ps, exhaustive) = prios(&gates, if thorough { 48 } else { 6 }, &mut rng);
+                            if exhaustive {
+                                self.stats.bump("cases_with_exhaustive_release_orders", 1);
+                            }
+                            let gp = with_gates(p, &gates);
+                            for pr in ps {
+                                let s = Sched { prio: pr, batch: 1, grace_us: 200, caller: caller.clone(), ..default.clone() };
+                                if let Some((rec, _, _)) = self.exec(cx, &gp, &s, n >= 2) {
+                                    self.stats.bump(&format!("arrival_set_size:{}", rec.max_held), 1);
+                                    if pi > 0 {
+                                        self.stats.bump("gated_runs_with_a_failing_branch", 1);
+                                    }
+                                }
                             }
                         }
                     }
@@ -765,8 +783,14 @@ impl<'a> Engine<'a> {
                             for (pi, pr) in ps.into_iter().enumerate() {
                                 let batch = [1usize, 1, 2, 0][pi % 4];
                                 let spurious = pi % 3 == 1;
-                                let s = Sched { prio: pr, batch, spurious, ..default.clone() };
+                                // task kinds: the future is created in turn inside the polling runtime, in plain synchronous
+                                // code, and inside the context of another (idle) runtime; it is always polled on ours
+                                let create_ctx = if kind.is_tasks() { (pi % 3) as u8 } else { 0 };
+                                let s = Sched { prio: pr, batch, spurious, create_ctx, ..default.clone() };
                                 if let Some((rec, _, _)) = self.exec(cx, &gp, &s, ngates >= 2) {
+                                    if create_ctx != 0 {
+                                        self.stats.bump(&format!("task_kind_runs_with_future_created_in_context_{}", create_ctx), 1);
+                                    }
                                     if rec.decisions >= 2 {
                                         self.stats.bump("runs_with_2plus_release_decisions", 1);
                                     }
@@ -923,11 +947,31 @@ impl<'a> Engine<'a> {
             // placements are taken from the first case (failure-capable ids do not depend on the kind,
             // except the and_then handler which only exists in try instantiations)
             let ids = fail_ids(group[0].case);
-            let plans = placements(&ids, &mut rng, if thorough { 128 } else { 12 });
+            let mut plans = placements(&ids, &mut rng, if thorough { 128 } else { 12 });
+            // sequential and thread kinds: a panic at some position, alone or together with a failure elsewhere — "the same
+            // result" includes "both panic" (e.g. a branch fails and a higher-numbered sibling of the same step panics:
+            // every branch of the step runs in both, so both must panic). Async kinds may legitimately differ there.
+            let acts: Vec<u16> = all_acts(group[0].case.prog).iter().filter(|a| a.id != 0).map(|a| a.id).collect();
+            if !acts.is_empty() {
+                for _ in 0..(if thorough { 32 } else { 6 }) {
+                    let mut p: Plan = vec![(acts[rng.below(acts.len())], PANIC)];
+                    if !ids.is_empty() && rng.chance(3, 4) {
+                        let f = ids[rng.below(ids.len())];
+                        if f != p[0].0 {
+                            p.push((f, FAIL));
+                        }
+                    }
+                    plans.push(p);
+                }
+            }
             for p in plans {
+                let panic_plan = p.iter().any(|(_, f)| f & PANIC != 0);
                 let mut res: HashMap<(Kind, Option<HK>), (Outcome, Vec<(u16, Vec<u16>)>, Vec<Ev>, Vec<Option<String>>)> = HashMap::new();
                 let mut unnamed: HashMap<(Kind, Option<HK>), Outcome> = HashMap::new();
                 for cx in &group {
+                    if panic_plan && cx.case.kind.is_async() {
+                        continue;
+                    }
                     let rec = match self.exec(cx, &p, &default, true) {
                         Some(r) => r.0,
                         None => continue,
@@ -971,7 +1015,10 @@ impl<'a> Engine<'a> {
                             if !same {
                                 msgs.push(format!("{} gives {:?} but {} gives {:?}", k.name(), me.0, other.name(), o.0));
                             }
-                            if exact && !(k.is_async() && exp.fail_step.is_some()) {
+                            if panic_plan {
+                                stats.bump("pairs_compared_under_a_panic_plan", 1);
+                            }
+                            if exact && !panic_plan && !(k.is_async() && exp.fail_step.is_some()) {
                                 if me.1 != o.1 {
                                     msgs.push(format!("{} and {} differ in their per-branch callback traces", k.name(), other.name()));
                                 }
